@@ -312,3 +312,7 @@ Proof.
   exists f, (canon_rebuild (generic_order G) G), Hc, pairs.
   split; [exact Hinj|]. split; [exact E|]. split; [exact RF|]. split; [exact EH|exact Iso].
 Qed.
+
+Example ex_remap_list : remap_graph_list ex_H [1%N; 7%N; 2%N] = Some (relabel (sigma_of [1%N; 7%N; 2%N]) ex_H)
+  /\ option_map (fun g : mgraph => node_ids g) (remap_graph_list ex_H [1%N; 7%N; 2%N]) = Some [1%N; 2%N; 3%N].
+Proof. vm_compute. auto. Qed.
